@@ -211,7 +211,7 @@ pub fn c06(ctx: &Ctx) -> (CheckMeta, Outcome) {
     // (1) pure grid over every length function
     let all = all_codes(ctx.seed);
     let core = core_codes();
-    let dense: u64 = if ctx.thorough { 1 << 20 } else { 1 << 16 };
+    let dense: u64 = if ctx.thorough { 1 << 22 } else { 1 << 20 };
     let mut tasks: Vec<Task> = vec![];
     for chunk in all.chunks(8) {
         let chunk: Vec<Code> = chunk.to_vec();
@@ -279,7 +279,7 @@ pub fn c06(ctx: &Ctx) -> (CheckMeta, Outcome) {
     let meta = CheckMeta {
         property: "C06".into(),
         level: "exploration".into(),
-        rule: "bounded-exhaustive: (1) every library length function (len_*, len_*_param with tables on/off, byte_len_vbyte, Codes::len, FuncCodeLen, ConstCode::len) vs the reference codeword length for all codes/parameters, all values below 2^16 (2^20 thorough) for core codes, below 2^10 otherwise, every 2^i+-2, every code-specific step point, domain maxima, seeded extras (no codeword-length restriction); (2) streams as in C03: value returned by write_*, growth of the real stream and bit_pos advance of every read variant; non-trivial = value at which the reference length steps, or value > 2^32".into(),
+        rule: "bounded-exhaustive: (1) every library length function (len_*, len_*_param with tables on/off, byte_len_vbyte, Codes::len, FuncCodeLen, ConstCode::len) vs the reference codeword length for all codes/parameters, all values below 2^20 (2^22 thorough) for core codes, below 2^10 otherwise, every 2^i+-2, every code-specific step point, domain maxima, seeded extras (no codeword-length restriction); (2) streams as in C03: value returned by write_*, growth of the real stream and bit_pos advance of every read variant; non-trivial = value at which the reference length steps, or value > 2^32".into(),
         assumptions: vec!["reference length = length of the reference codeword (harness/src/model.rs)".into()],
     };
     (meta, out)
